@@ -242,3 +242,54 @@ Theorem C14_jailed_same_block_set_refuted :
     lastvals (srun s' [SEnd; SCommit; SBegin (InvFee.demo_hdr 5 (Some 11%N)); SEnd]) = [].
 Proof. exact InvSlashClosed.C14_jailed_same_block_set_refuted. Qed.
 Print Assumptions C14_jailed_same_block_set_refuted.
+
+(* ================================================================== the jailing decision from the block HEADERS
+   (InvJailHistory.v).  [reported_misses a g ops]: the heights h-1 at which a BeginBlock of height h
+   reported a as a non-signer, collected while a stays a delegatee.  As long as no operation of the run
+   ENLARGES the signing window (window_nonincr), the miss marks the node keeps agree with them inside every
+   window (trimming only removes what no later window needs), so the decision "leaves in BeginBlock" can be
+   read off the headers alone — which is what the trace predicate P_C14_jail_history does on the real node.
+   When governance enlarges the window, already trimmed heights come back into view: the claim is then false
+   of the model (and of the code), witness C14_window_growth_refuted; the predicate stays silent for one
+   window length after such a change. *)
+From Rigo Require Import InvJailHistory.
+Theorem C14_marks_window_agree : forall g ops hd a d,
+  genesis_ok g → opts_ok ops → blocks InvPanic.Idle 0 (ops ++ [SBegin hd]) → votes_from_2 ops → window_nonincr g ops →
+  let s := srun (init_chain g) ops in
+  let h := h_height hd in
+  let s0 := win_start (gparams s) h in
+  let R := reported_misses a g ops in
+  dels (work s) !! a = Some d →
+  List.filter (in_window s0 (h - 1)) (d_marks d) = List.filter (in_window s0 (h - 1)) R ∧
+  List.filter (in_window s0 (h - 1)) (missed_marks h d) = List.filter (in_window s0 (h - 1)) (R ++ [h - 1]) ∧
+  (∀ x, x ∈ d_marks d → x ∈ R) ∧
+  incr R ∧ Forall (λ x, x < h - 1) R.
+Proof. exact InvJailHistory.marks_window_agree. Qed.
+Print Assumptions C14_marks_window_agree.
+
+Theorem C14_jail_iff_headers : forall g pre hd,
+  genesis_ok g → hashes_fresh pre → opts_ok pre → blocks InvPanic.Idle 0 (pre ++ [SBegin hd]) →
+  NoDup (nonsigners (h_votes hd)) → votes_from_2 (pre ++ [SBegin hd]) → window_nonincr g pre →
+  let s := srun (init_chain g) pre in
+  ∀ a d, dels (work s) !! a = Some d →
+    (dels (work (sstep s (SBegin hd))) !! a = None ↔
+     a ∈ nonsigners (h_votes hd) ∧
+     header_decision (gparams s) (h_height hd) (reported_misses a g pre) = true).
+Proof. exact InvJailHistory.C14_jail_iff_headers. Qed.
+Print Assumptions C14_jail_iff_headers.
+
+Theorem C14_window_growth_refuted : 
+  let g := jr_genesis in let ops := jr_pre in let hd := jr_hdr 9 true in let a := 11%N in
+  let s := srun (init_chain g) ops in
+  genesis_ok g ∧ hashes_fresh ops ∧ opts_ok ops ∧ blocks InvPanic.Idle 0 (ops ++ [SBegin hd]) ∧
+  NoDup (nonsigners (h_votes hd)) ∧ votes_from_2 (ops ++ [SBegin hd]) ∧
+  g_signedBlocksWindow (gen_params g) = 2 ∧ g_signedBlocksWindow (gparams s) = 100 ∧
+  ¬ window_const g ops ∧ ¬ window_nonincr g ops ∧
+  ∃ d, dels (work s) !! a = Some d ∧ d_marks d = [5] ∧ reported_misses a g ops = [1; 2; 5] ∧
+       win_start (gparams s) 9 = 0 ∧
+       List.filter (in_window 0 8) (d_marks d) ≠ List.filter (in_window 0 8) (reported_misses a g ops) ∧
+       jailed (gparams s) 9 (after_evidence s hd a d) = false ∧
+       header_decision (gparams s) 9 (reported_misses a g ops) = true ∧
+       is_Some (dels (work (sstep s (SBegin hd))) !! a).
+Proof. exact InvJailHistory.window_growth_refuted. Qed.
+Print Assumptions C14_window_growth_refuted.
